@@ -653,7 +653,15 @@ func (k *Checker) onConfProposeCall(n *Node, ctx int, cc pb.ConfChangeI) {
 	}
 }
 
-func (k *Checker) onConfProposeReturn(n *Node, ctx int, err error) {}
+// onConfProposeReturn: a configuration-change proposal whose call returned an
+// error (ErrProposalDropped) must not produce an entry (C20 pi.dropped). Every
+// context is proposed by exactly one call.
+func (k *Checker) onConfProposeReturn(n *Node, ctx int, err error) {
+	if err == nil || err == errIndeterminate {
+		return
+	}
+	k.ccDropped["c"+strconv.Itoa(ctx)] = true
+}
 
 // noteDeliveredProp counts deliveries of forwarded proposals to a leader.
 func (k *Checker) noteDeliveredProp(n *Node, pre *raft.VerifState, m *pb.Message) {
@@ -730,6 +738,10 @@ func (k *Checker) checkOrigin(n *Node, st *raft.VerifState, e *pb.Entry) {
 		cx, ok := ccContext(e)
 		if !ok {
 			k.report("C20", "pi.origin", n, fmt.Sprintf("conf-change entry %d does not decode", e.GetIndex()), "pi.origin.cc_decode")
+			return
+		}
+		if k.ccDropped[cx] {
+			k.report("C20", "pi.dropped", n, fmt.Sprintf("configuration change %q was reported dropped but entry %d carries it", cx, e.GetIndex()), "pi.dropped.cc")
 			return
 		}
 		want, ok := k.ccProposed[cx]
